@@ -13,6 +13,10 @@
   single-IMF extraction (C04 model, no energy threshold) satisfies it for every envelope oracle.
   `resid x cols = x − Σ cols` (`Sig.sub x (Sig.vsum x.length cols)`).
 
+  Out of range: `get_next_imf` with the fixed rule and `max_iters = 0` never returns in the code; its model
+  answers `convergeError` (`C04.fixed_zero_iters_model_convergeError`), so `extractorIx` is `none` and the
+  sift model ends `.raised` — every theorem here is about `.done` exits and is silent on that call.
+
   With an energy threshold the contract's `stay` half fails (the flag is also cleared when the energy
   rule fires); the section "With an energy threshold" states the property at full strength for EVERY
   option record: complete unless cut short by the cap, the sift threshold or the energy rule
